@@ -35,7 +35,8 @@ def ensure_work():
 
 
 def cleanup_work():
-    shutil.rmtree(WORK, ignore_errors=True)
+    if not os.environ.get("VERIF_KEEP_WORK"):
+        shutil.rmtree(WORK, ignore_errors=True)
 
 
 @contextlib.contextmanager
@@ -247,7 +248,8 @@ def eval_mismatches(mods, check_fn, cases, extra="", shard=400, tag="cases", pri
     ensure_work()
     for si, sh in enumerate(shards):
         body = CASE_PRELUDE.format(mods=" ".join(mods), extra=extra)
-        body += "Definition cases := [\n  " + ";\n  ".join(sh) + "\n].\n"
+        body += "Definition typed_cases {A} (f : A -> bool) (l : list A) : list A := l.\n"
+        body += "Definition cases := typed_cases %s [\n  " % check_fn + ";\n  ".join(sh) + "\n].\n"
         body += (
             "Definition mism := (fix go (i : nat) l := match l with [] => [] | c :: r => "
             "if %s c then go (S i) r else i :: go (S i) r end) O cases.\n" % check_fn
